@@ -158,7 +158,7 @@ theorem tail_poll {cap mc : Nat} {A E L : Bytes} (h24 : 24 ≤ cap) (hab : Absor
         (.writing (run .header raw mc).out (run .header raw mc).st.isFinal)) c.env.tr) raw :=
       ⟨by show raw ++ c.env.tr.input ++ [] = A
           rw [List.append_nil]; exact hwire,
-        hstop, hb, hremle, Or.inr ⟨_, rfl, by show c.env.tr.wlog ++ _ = _; rw [hlog]⟩⟩
+        hstop, hb, hremle, Or.inr ⟨_, rfl, by show c.env.tr.wlog ++ _ = _; rw [hlog], [], rfl⟩⟩
     have hk' : Kept sc h0 evs em (mkC c (.parseReq (track cap mc raw)
         (.writing (run .header raw mc).out (run .header raw mc).st.isFinal)) c.env.tr) := hk.frame rfl (.refl _)
     have hone := Steps.one hstep'
